@@ -636,9 +636,12 @@ fn op_rabin(cmd: &J) -> Result<J, String> {
 
 /// Decode with the non-allocating `Sum` target, measuring allocations, buffer refills and wall time.
 fn op_de_sum(session: &mut Session, cmd: &J) -> Result<J, String> {
-	use crate::capture::SumSeed;
+	use crate::capture::SumTop;
 	use serde_avro_fast::de::{read::ReaderRead, DeserializerConfig, DeserializerState};
 	use std::sync::atomic::Ordering;
+	// "top_hint": the serde entry point used for the top-level value (default: deserialize_any)
+	const TOPS: [&str; 16] = ["any", "f64", "f32", "u64", "i64", "i32", "u128", "i128", "str", "string", "bytes", "byte_buf", "option", "seq", "map", "ignored"];
+	let top: &'static str = cmd.get("top_hint").and_then(|t| t.as_str()).and_then(|t| TOPS.iter().find(|x| **x == t).copied()).unwrap_or("any");
 	let schema = match session.schema(&cmd["schema"]) {
 		Ok(s) => s,
 		Err(e) => return Ok(json!({"res": "schema_err", "msg": e})),
@@ -671,7 +674,7 @@ fn op_de_sum(session: &mut Session, cmd: &J) -> Result<J, String> {
 	let (res, consumed, fill_calls): (Result<u64, String>, usize, usize) = match kind {
 		"slice" => {
 			let mut state = DeserializerState::with_config(serde_avro_fast::de::read::SliceRead::new(&bytes), config);
-			let r = SumSeed.deserialize(state.deserializer()).map_err(|e| e.to_string());
+			let r = SumTop(top).deserialize(state.deserializer()).map_err(|e| e.to_string());
 			let rest = {
 				use std::io::BufRead;
 				let mut rd = state.into_reader();
@@ -686,7 +689,7 @@ fn op_de_sum(session: &mut Session, cmd: &J) -> Result<J, String> {
 				rr.max_alloc_size = m;
 			}
 			let mut state = DeserializerState::with_config(rr, config);
-			let r = SumSeed.deserialize(state.deserializer()).map_err(|e| e.to_string());
+			let r = SumTop(top).deserialize(state.deserializer()).map_err(|e| e.to_string());
 			let cr = state.into_reader().into_inner();
 			(r, cr.consumed(), cr.fill_calls)
 		}
